@@ -145,6 +145,85 @@ func genC01Field(g *gen, f fieldAPI) {
 	for _, c := range []string{"0", "1", "2", "-1"} {
 		g.emit("C01 %s select %s %s %s", n, c, hexBig(pick()), hexBig(pick()))
 	}
+	// word-structured CANONICAL values (the comparisons work limb by limb on the regular form): pairs that agree on all words
+	// above word j and differ in word j, with the words below j ordered the other way (or equal / extreme), both orders, for
+	// every j; and values that agree with (q-1)/2 above word j for LexicographicallyLargest
+	{
+		w := uint(f.WordBits())
+		nl := f.Limbs()
+		wmask := new(big.Int).Sub(new(big.Int).Lsh(big.NewInt(1), w), big.NewInt(1))
+		setWord := func(v *big.Int, j int, x *big.Int) *big.Int {
+			r := new(big.Int).AndNot(v, new(big.Int).Lsh(wmask, w*uint(j)))
+			return r.Or(r, new(big.Int).Lsh(new(big.Int).And(x, wmask), w*uint(j)))
+		}
+		below := func(v *big.Int) *big.Int { // force < q keeping the low words: halve the top word until it fits
+			r := new(big.Int).Set(v)
+			for r.Cmp(q) >= 0 {
+				top := new(big.Int).Rsh(r, w*uint(nl-1))
+				r = setWord(r, nl-1, top.Rsh(top, 1))
+			}
+			return r
+		}
+		half := new(big.Int).Rsh(new(big.Int).Sub(q, big.NewInt(1)), 1)
+		tops := []*big.Int{big.NewInt(0), g.rng.bigBelow(q), new(big.Int).Sub(q, big.NewInt(1)), half}
+		for j := 0; j < nl; j++ {
+			for ti, c := range tops {
+				if ti == 0 {
+					c = big.NewInt(0)
+				}
+				u := new(big.Int).And(g.rng.bigBits(int(w)), wmask)
+				for _, dv := range []int64{1, 2, -1} {
+					var v *big.Int
+					if dv < 0 {
+						v = new(big.Int).And(g.rng.bigBits(int(w)), wmask)
+					} else {
+						v = new(big.Int).And(new(big.Int).Add(u, big.NewInt(dv)), wmask)
+					}
+					a, b := setWord(c, j, u), setWord(c, j, v)
+					// words below j: a gets the larger tail when its word j is the smaller one (and vice versa), then equal tails
+					for _, tail := range []int{0, 1, 2} {
+						for k := 0; k < j; k++ {
+							switch tail {
+							case 0:
+								a, b = setWord(a, k, wmask), setWord(b, k, big.NewInt(0))
+							case 1:
+								a, b = setWord(a, k, big.NewInt(0)), setWord(b, k, wmask)
+							default:
+								t := g.rng.bigBits(int(w))
+								a, b = setWord(a, k, t), setWord(b, k, t)
+							}
+						}
+						a2, b2 := below(a), below(b)
+						for _, op := range []string{"cmp", "equal"} {
+							g.emit("C01 %s %s %s %s", n, op, hexBig(toMont(a2)), hexBig(toMont(b2)))
+							g.emit("C01 %s %s %s %s", n, op, hexBig(toMont(b2)), hexBig(toMont(a2)))
+						}
+					}
+				}
+			}
+			// LexicographicallyLargest: equal to (q-1)/2 above word j, word j off by ±1, tails 0 / max / random
+			hw := new(big.Int).And(new(big.Int).Rsh(half, w*uint(j)), wmask)
+			for _, d := range []int64{-1, 0, 1} {
+				x := setWord(half, j, new(big.Int).Add(hw, big.NewInt(d)))
+				for _, tail := range []int{0, 1, 2, 3} {
+					y := new(big.Int).Set(x)
+					for k := 0; k < j; k++ {
+						switch tail {
+						case 0:
+							y = setWord(y, k, big.NewInt(0))
+						case 1:
+							y = setWord(y, k, wmask)
+						case 2:
+							y = setWord(y, k, g.rng.bigBits(int(w)))
+						}
+					}
+					if y.Cmp(q) < 0 && y.Sign() >= 0 {
+						g.emit("C01 %s lexlargest %s", n, hexBig(toMont(y)))
+					}
+				}
+			}
+		}
+	}
 	// exponents: 0, ±1, ±2, ±(q-1), ±q, ±(q-2), 2^k, 2^k-1, long random, negative
 	qm1 := new(big.Int).Sub(q, big.NewInt(1))
 	exps := []*big.Int{big.NewInt(0), big.NewInt(1), big.NewInt(-1), big.NewInt(2), big.NewInt(-2), big.NewInt(3), qm1, new(big.Int).Neg(qm1), q, new(big.Int).Neg(q),
